@@ -100,6 +100,22 @@ def run(mid, props, kind="seeded"):
         sh(f"git -C /repo worktree remove --force {wt}")
         shutil.rmtree(out_dir, ignore_errors=True)
     json.dump(meta, open(os.path.join(dst, "meta.json"), "w"), indent=1)
+    if os.environ.get("VERIF_SEED_RESULTS"):
+        # (runs from a snapshot of /verif: results are collected elsewhere and merged by `merge`)
+        os.makedirs(os.environ["VERIF_SEED_RESULTS"], exist_ok=True)
+        json.dump(meta["detected_by"], open(os.path.join(os.environ["VERIF_SEED_RESULTS"], f"{mid}.json"), "w"), indent=1)
+
+
+def merge(res_dir, kind="seeded"):
+    for f in sorted(os.listdir(res_dir)):
+        mid = f[:-5]
+        mp = os.path.join(ROOT, kind, mid, "meta.json")
+        if not os.path.exists(mp):
+            mp = os.path.join(ROOT, "benign", mid, "meta.json")
+        meta = json.load(open(mp))
+        meta["detected_by"].update(json.load(open(os.path.join(res_dir, f))))
+        json.dump(meta, open(mp, "w"), indent=1)
+        print("merged", mid, {k: (v["exit"], v["violations"]) for k, v in meta["detected_by"].items()})
 
 
 if __name__ == "__main__":
@@ -109,5 +125,7 @@ if __name__ == "__main__":
         run(sys.argv[2], sys.argv[3:])
     elif sys.argv[1] == "confirm_benign":
         sys.exit(0 if confirm(sys.argv[2], sys.argv[3], sys.argv[4], benign=True) else 1)
+    elif sys.argv[1] == "merge":
+        merge(sys.argv[2])
     elif sys.argv[1] == "run_benign":
         run(sys.argv[2], sys.argv[3:], kind="benign")
